@@ -169,17 +169,35 @@ func p19Class(err error) string {
 	return "other:" + s
 }
 
+// p19Show: everything the pool holds for the account in nonce order, and how many of them are pending.  A promotion
+// that the pool has not carried out yet (the account was not re-examined since the transaction became executable:
+// pending is a strict prefix of the executable run) is reported as `p=?`: the model always shows the settled split.
 func p19Show(pool *core.TxPool, a *p19Acct) string {
 	p, q := pool.ContentFrom(a.ia)
-	f := func(l types.Transactions) string {
-		var out []string
-		sort.Slice(l, func(i, j int) bool { return l[i].Nonce() < l[j].Nonce() })
-		for _, t := range l {
-			out = append(out, fmt.Sprintf("%d:%s", t.Nonce(), short(t.Hash().Bytes())))
+	all := append(append(types.Transactions{}, p...), q...)
+	sort.Slice(all, func(i, j int) bool { return all[i].Nonce() < all[j].Nonce() })
+	sort.Slice(p, func(i, j int) bool { return p[i].Nonce() < p[j].Nonce() })
+	var out []string
+	run := 0
+	for i, t := range all {
+		out = append(out, fmt.Sprintf("%d:%s", t.Nonce(), short(t.Hash().Bytes())))
+		if run == i && t.Nonce() == a.nonce+uint64(i) {
+			run++
 		}
-		return strings.Join(out, " ")
 	}
-	return fmt.Sprintf("p[%s] q[%s]", f(p), f(q))
+	ps := fmt.Sprint(len(p))
+	if len(p) < run {
+		lag := true
+		for i, t := range p {
+			if t.Hash() != all[i].Hash() {
+				lag = false
+			}
+		}
+		if lag {
+			ps = "?"
+		}
+	}
+	return fmt.Sprintf("held[%s] p=%s", strings.Join(out, " "), ps)
 }
 
 // settle waits until the pool's snapshot has stopped changing (reorg tick 1 ms)
